@@ -229,6 +229,19 @@ add(Contract('engine.YP.register_function', 'fn',
              ensures=['(= {ectx} (store {ectx0} (ite {arity.none} (str.++ {name} "_" (str.from_int (nparams {func})))'
                       ' (ite (< {arity} 0) (str.++ {name} "_n") (str.++ {name} "_" (str.from_int {arity})))) {func}))']))
 
+def _bi(key, fn):
+    return '(= (select {ectx} "%s") %s)' % (key, fn)
+
+
+# the documented builtins under the names and arities a compiled program looks them up with (README "Builtin predicates");
+# call has variable arity (call/N for every N >= 1)
+add(Contract('engine.YP._set_builtin_predicates', 'fn', [('self', 'YP')], ret='None', modifies=['ectx'],
+             ensures=[_bi('=_2', 'fn_builtin_eq'), _bi('\\u{5c}=_2', '(fn_method "builtin_neq")'),
+                      _bi('findall_3', '(fn_method "findall")'), _bi('call_n', '(fn_method "call")'),
+                      _bi('once_1', '(fn_method "once")'), _bi('assertz_1', '(fn_method "assertz")'),
+                      _bi('asserta_1', '(fn_method "asserta")'), _bi('retract_1', '(fn_method "retract")'),
+                      _bi('retractall_1', '(fn_method "retractall")')]))
+
 add(Contract('engine.YP.evaluate_bounded', 'fn',
              [('self', 'YP'), ('query', 'GenHandle'), ('projection_function', 'UserFn'), ('recursion_limit', 'Opt:Int:200')],
              ret='Any',
